@@ -991,7 +991,8 @@ pub fn plan_b(rng: &mut Rng, cfg: &PlanCfg) -> ScenarioB {
                     buy: rng.chance(1, 2),
                     qty: 1 + rng.range(0, 3),
                     price: rng.range(50, 150),
-                    fee_bp: *rng.pick(&[0i64, 0, 10, 25]),
+                    // (negative = maker rebate)
+                    fee_bp: *rng.pick(&[0i64, 0, 10, 25, -10]),
                     t,
                 },
                 35..=59 => EvB::Market {
@@ -999,7 +1000,8 @@ pub fn plan_b(rng: &mut Rng, cfg: &PlanCfg) -> ScenarioB {
                     // sometimes late (older than what was already delivered)
                     t: if rng.chance(1, 5) { t - rng.range(1, 9) } else { t },
                     kind: MktB::Trade {
-                        price: rng.range(50, 150),
+                        // now and then a zero or negative print (spreads, basis instruments)
+                        price: if rng.chance(1, 12) { -rng.range(0, 5) } else { rng.range(50, 150) },
                     },
                 },
                 60..=84 => {
